@@ -4,6 +4,8 @@ pub trait DDNNFPtr: Copy + PartialEq {
     spec fn sem(self, env: Env) -> bool;
     spec fn is_true_s(self) -> bool;
     spec fn is_false_s(self) -> bool;
+    /// the pointer `neg` returns
+    spec fn neg_s(self) -> Self;
 
     /// `==` on pointers implies equal denotation; constants denote constants
     proof fn eq_is_sem()
@@ -13,10 +15,13 @@ pub trait DDNNFPtr: Copy + PartialEq {
             forall|a: Self, b: Self| #[trigger] a.eq_spec(&b) ==> a == b,
             forall|a: Self, b: Self, env: Env| #![trigger a.eq_spec(&b), tr(env)] a.eq_spec(&b) ==> a.sem(env) == b.sem(env),
             forall|a: Self, env: Env| #![trigger a.is_true_s(), tr(env)] a.is_true_s() ==> a.sem(env),
-            forall|a: Self, env: Env| #![trigger a.is_false_s(), tr(env)] a.is_false_s() ==> !a.sem(env);
+            forall|a: Self, env: Env| #![trigger a.is_false_s(), tr(env)] a.is_false_s() ==> !a.sem(env),
+            forall|a: Self, env: Env| #![trigger a.neg_s().sem(env)] a.neg_s().sem(env) == !a.sem(env),
+            forall|a: Self| #![trigger a.neg_s().neg_s()] a.neg_s().neg_s() == a,
+            forall|a: Self| #![trigger a.neg_s()] (a.is_true_s() ==> a.neg_s().is_false_s()) && (a.is_false_s() ==> a.neg_s().is_true_s());
 
     fn neg(&self) -> (r: Self)
-        ensures forall|env: Env| #[trigger] tr(env) ==> r.sem(env) == !self.sem(env);
+        ensures r == self.neg_s(), forall|env: Env| #[trigger] tr(env) ==> r.sem(env) == !self.sem(env);
     fn false_ptr() -> (r: Self)
         ensures r.is_false_s(), forall|env: Env| #[trigger] tr(env) ==> !r.sem(env);
     fn true_ptr() -> (r: Self)
